@@ -63,6 +63,17 @@ def run(tier, seed):
     for _ in range(n):
         cases.append(dict(qs=rng.choice(LENS), ed=rng.choice(LENS), name_tail=rng.choice(LENS), qn=rng.choice(LENS), tag=rng.choice([0x8017] * 3 + list(ST)),
                           name_alg=rng.choice(list(ALG))))
+    # Names and qualified names as a TPM really computes them: Name = nameAlg || H(pubArea); QN = nameAlg || H(QN(parent) || Name), the QN of a hierarchy being its 4-byte
+    # handle (owner, endorsement, platform, NULL) - for primaries and for children two levels down.  The decoder decodes; it does not judge where a key lives.
+    import hashlib as _hl
+    HN = {0x0004: _hl.sha1, 0x000B: _hl.sha256, 0x000C: _hl.sha384, 0x000D: _hl.sha512}
+    for alg_, hf in HN.items():
+        for handle in (0x40000001, 0x4000000B, 0x4000000C, 0x40000007, 0x81000001):
+            nm_ = struct.pack(">H", alg_) + hf(rb(90)).digest()
+            qn1 = struct.pack(">H", alg_) + hf(struct.pack(">I", handle) + nm_).digest()
+            cases.append(dict(name_bytes=nm_, qn_bytes=qn1, name_alg=alg_))
+            child = struct.pack(">H", alg_) + hf(rb(90)).digest()
+            cases.append(dict(name_bytes=child, qn_bytes=struct.pack(">H", alg_) + hf(qn1 + child).digest(), name_alg=alg_, qs_bytes=qn1))
     shared_tail, shared_qs = rb(32), rb(34)
     for ci, c in enumerate(cases):
         tag = c.get("tag", 0x8017)
@@ -84,6 +95,9 @@ def run(tier, seed):
             ed = qn
         if ci % 7 == 5 and "qs" not in c and "qn" not in c:
             qs = qn = name
+        if "name_bytes" in c:
+            name, qn = c["name_bytes"], c["qn_bytes"]
+            qs = c.get("qs_bytes", qs)
         clock, reset, restart, safe, fwv = rb(8), rng.randrange(2 ** 32), rng.randrange(2 ** 32), rng.choice([0, 1, 2, 255]), rb(8)
         b = magic + struct.pack(">H", tag) + struct.pack(">H", len(qs)) + qs + struct.pack(">H", len(ed)) + ed + clock + struct.pack(">II", reset, restart) + bytes([safe]) + fwv \
             + struct.pack(">H", len(name)) + name + struct.pack(">H", len(qn)) + qn
@@ -146,10 +160,21 @@ def run(tier, seed):
                     for cv_ in CURVE:
                         for kdf_ in (0x0010, 0x0020):
                             pcases.append(dict(kind="ECC", attrs=at_, name_alg=na_, scheme=sch_, sym=sym_, curve=cv_, kdf=kdf_, ap=0, unique=2, uy=2))
+    # authorization policies that MEAN something to a TPM (the digests of PolicyAuthValue, PolicyPassword, PolicySecret(endorsement) - the default EK policy -, PolicyCommandCode
+    # (Certify), the empty policy), under every name algorithm, with userWithAuth / adminWithPolicy set and clear: authPolicy is bytes, the attribute bits are the encoded bits
+    import hashlib as _hl2
+    for alg_, hf in {0x0004: _hl2.sha1, 0x000B: _hl2.sha256, 0x000C: _hl2.sha384, 0x000D: _hl2.sha512}.items():
+        z = bytes(hf().digest_size)
+        pols = [hf(z + struct.pack(">I", 0x16B)).digest(), hf(z + struct.pack(">I", 0x18C)).digest(), hf(hf(z + struct.pack(">I", 0x151) + struct.pack(">I", 0x4000000B)).digest()).digest(),
+                hf(z + struct.pack(">I", 0x16C) + struct.pack(">I", 0x148)).digest(), z, b""]
+        for pol_ in pols:
+            for at_ in (0x00050472, 0x00050432, 0x000504F2, 0x00040072, 0x00040032, 0x000400B2):      # (userWithAuth bit 6, adminWithPolicy bit 7 in every combination that occurs)
+                for kd_ in ("RSA", "ECC"):
+                    pcases.append(dict(kind=kd_, attrs=at_, name_alg=alg_, ap_bytes=pol_, unique=2, uy=2))
     for c in pcases:
         kind = c.get("kind", "RSA")
         attrs = c.get("attrs", 0x00050472)
-        ap = rb(c.get("ap", 32))
+        ap = c["ap_bytes"] if "ap_bytes" in c else rb(c.get("ap", 32))
         na, sym, sch = c.get("name_alg", 0x000B), c.get("sym", 0x0010), c.get("scheme", 0x0014)
         b = struct.pack(">H", 0x0001 if kind == "RSA" else 0x0023) + struct.pack(">H", na) + struct.pack(">I", attrs) + struct.pack(">H", len(ap)) + ap
         abits = "".join("1" if attrs >> k & 1 else "0" for k in BITS)
